@@ -36,6 +36,7 @@ const (
 	c19KnownKey       = "c19-40char-nonhex-secret"
 	c19KnownKeyForm   = "c19-legacy-form-body-token-not-salted"
 	c19KnownKeyCookie = "c19-legacy-cookie-token-forwarded"
+	c19KnownKeyPanic  = "c19-legacy-v2-two-segment-token-panics"
 )
 
 // ---------------------------------------------------------------- fake database
@@ -221,6 +222,10 @@ type c19Env struct {
 	seq int
 }
 
+type c19Panic struct{ v interface{} }
+
+func (p c19Panic) Error() string { return fmt.Sprintf("handler panicked: %v", p.v) }
+
 func (e *c19Env) drive(localID, remote string, route c19Route, placed []c19Placed, table map[string]c19.Resolution, reqid string) (caps []c19.Captured, wentLocal bool, status int, err error) {
 	e.db.set(table)
 	cluster := &arvados.Cluster{ClusterID: localID, RemoteClusters: map[string]arvados.RemoteCluster{
@@ -244,13 +249,22 @@ func (e *c19Env) drive(localID, remote string, route c19Route, placed []c19Place
 	}
 	e.rec.Take()
 	w := httptest.NewRecorder()
-	h.setupProxyRemoteCluster(next).ServeHTTP(w, req)
+	func() {
+		// net/http's server recovers handler panics (the client sees an aborted
+		// connection); report them to the caller instead of dying here.
+		defer func() {
+			if v := recover(); v != nil {
+				err = c19Panic{v}
+			}
+		}()
+		h.setupProxyRemoteCluster(next).ServeHTTP(w, req)
+	}()
 	for _, c := range e.rec.Take() {
 		if c.Header.Get("X-Request-Id") == reqid {
 			caps = append(caps, c)
 		}
 	}
-	return caps, wentLocal, w.Code, nil
+	return caps, wentLocal, w.Code, err
 }
 
 func TestVerifC19LegacyHandler(t *testing.T) {
@@ -313,7 +327,22 @@ func TestVerifC19LegacyHandler(t *testing.T) {
 		env.seq++
 		reqid := fmt.Sprintf("req-c19verif%09d", env.seq)
 		caps, wentLocal, status, derr := env.drive(localID, remote, route, placed, table, reqid)
-		if derr != nil {
+		panicked := false
+		if pe, ok := derr.(c19Panic); ok {
+			// Narrow classifier: the token the legacy path picks is "v2/<one segment>".
+			twoSeg := false
+			var desc []string
+			for _, p := range placed {
+				desc = append(desc, p.place+":"+p.tok.Raw)
+				seg := strings.Split(p.tok.Raw, "/")
+				twoSeg = twoSeg || (len(seg) == 2 && seg[0] == "v2")
+			}
+			msg := fmt.Sprintf("%s with tokens %q: %v (tokens not in Arvados format are to be passed through unchanged)", route.name, desc, pe)
+			if !(twoSeg && stats.Known(c19KnownKeyPanic, msg)) {
+				t.Fatalf("%s", msg)
+			}
+			panicked = true
+		} else if derr != nil {
 			t.Fatalf("VERIF-INFRA: %v", derr)
 		}
 
@@ -348,6 +377,11 @@ func TestVerifC19LegacyHandler(t *testing.T) {
 		switch {
 		case len(caps) > 1:
 			t.Fatalf("VERIF-INFRA: more than one forwarded request\n%s", describe(nil))
+		case panicked:
+			labels = append(labels, "outcome=panic", "known:"+c19KnownKeyPanic)
+			if len(caps) > 0 {
+				t.Fatalf("VERIF-INFRA: forwarded request after a panic\n%s", describe(nil))
+			}
 		case len(caps) == 0 && wentLocal:
 			labels = append(labels, "outcome=handled-locally")
 		case len(caps) == 0:
@@ -407,7 +441,12 @@ func TestVerifC19LegacyHandler(t *testing.T) {
 				if fw[i].Protected == "" {
 					continue
 				}
-				n := c19.Occurrences(c.Raw, fw[i].Protected, legit)
+				needle, scan := c19.ScanNeedle(p.tok, fw[i].Protected)
+				if !scan {
+					labels = append(labels, "scan-skipped(short-secret)")
+					continue
+				}
+				n := c19.Occurrences(c.Raw, needle, legit)
 				if n == 0 {
 					continue
 				}
@@ -423,7 +462,7 @@ func TestVerifC19LegacyHandler(t *testing.T) {
 				ctlLegit = append(ctlLegit, ctlID)
 				base := -1
 				if len(ctlCaps) == 1 {
-					base = c19.Occurrences(ctlCaps[0].Raw, fw[i].Protected, ctlLegit)
+					base = c19.Occurrences(ctlCaps[0].Raw, needle, ctlLegit)
 				}
 				if base >= n {
 					labels = append(labels, "secret-occurs-in-fixed-parts")
